@@ -1,7 +1,9 @@
 //! Level A: the real PanicState / PanicStateCache methods.
 //! case: flags daily consec start last_reset n (op now)*
-//! ops: 0 pause | 1 unpause | 2 unpause_if_expired | 3 is_expired | 4 can_pause | 5 cache is_expired
-//! out: per op  `<res> flags daily consec start last_reset`  (state rolled back on error)
+//! ops: 0 pause | 1 unpause | 2 unpause_if_expired | 3 is_expired | 4 can_pause
+//!      | 5 propagate: the group's cache (persistent in the case) is updated from the state at `now`; result = cache.is_expired(now)
+//!      | 6 query the group's cache: result = cache.is_expired(now)   (MarginfiGroup::is_protocol_paused = flag set && !is_expired)
+//! out: per op  `<res> flags daily consec start last_reset  c_flags c_start c_last_update`  (state rolled back on error)
 use crate::util::*;
 use marginfi::state::panic_state::PanicStateImpl;
 use marginfi_type_crate::types::{PanicState, PanicStateCache};
@@ -26,6 +28,7 @@ pub fn run(line: &str) -> String {
     p.pause_start_timestamp = t.i64();
     p.last_daily_reset_timestamp = t.i64();
     let n = t.usize();
+    let mut c = PanicStateCache::default();
     let mut out = Vec::new();
     for _ in 0..n {
         let op = t.u8();
@@ -47,17 +50,16 @@ pub fn run(line: &str) -> String {
             3 => format!("B{}", p.is_expired(now) as u8),
             4 => format!("B{}", p.can_pause(now) as u8),
             5 => {
-                let mut c = PanicStateCache::default();
                 c.update_from_panic_state(&p, now);
-                // query at the given time too
                 format!("B{}", c.is_expired(now) as u8)
             }
+            6 => format!("B{}", c.is_expired(now) as u8),
             _ => panic!("bad op"),
         });
         if r != "OK" && !r.starts_with('B') {
             p = before;
         }
-        out.push(format!("{} {}", r, st(&p)));
+        out.push(format!("{} {} {} {} {}", r, st(&p), c.pause_flags, c.pause_start_timestamp, c.last_cache_update));
     }
     out.join(" | ")
 }
